@@ -427,6 +427,8 @@ func runIntegJob(c *Ctl, job *Job, idx int, res *RunResult) {
 		gen.InteractivePct = 12
 		gen.HugePct = 2
 		gen.StageGen.CondProb = 8
+		gen.StageGen.NestProb = 25
+		gen.StageGen.SharedNestProb = 40 // a producer inside a pipeline nested by two stages: both nesting stages finish only when it has
 		w = GenTaskWorld(c.Ch, gen)
 		// the captured output must not depend on the output format chosen for the terminal
 		w.Format = []string{"raw", "prefixed", "cockpit"}[c.Ch.Weighted([]int{2, 2, 1}, "format")]
